@@ -103,8 +103,8 @@ def tables(v, o, amb_sort):
         ok, amb = [True], [False]
         for c in range(1, n):
             a, b = v[c - 1], v[c]
-            if b <= 0:  # both zero: a multiplet
-                ok.append(False), amb.append(False)
+            if b <= 0:  # both zero: ratio 1, a multiplet for every positive tolerance
+                ok.append(not (0 < tol)), amb.append(False)
             elif a <= 0:  # zero next to a positive value: not degenerate
                 ok.append(True), amb.append(False)
             else:
@@ -287,6 +287,8 @@ def model_line(case, nudge=(0, 0, 0)):
         o['svd_min'] = None if src['svd_min'] is None else rs(fr(src['svd_min']) * (1 + nudge[1] * ETA))
     if 'trunc_cut' in src:
         o['trunc_cut'] = None if src['trunc_cut'] is None else rs(fr(src['trunc_cut']) * (1 + nudge[2] * ETA))
+        if nudge[2] and src['trunc_cut'] is not None:
+            o['trunc_cut_check'] = rs(fr(src['trunc_cut']))  # `trunc_cut >= 1` is decided on the real threshold
     return {'k': 'truncate', 'S': [rs(fr(x)) for x in case['S']], 'tiny': rs(TINY), 'opts': o}
 
 
